@@ -29,9 +29,27 @@ type Un struct {
 	In nodes.NodeOutput[string]
 }
 
+// A processor fails (returns an error and the empty value) when its input mentions "boom": a failed
+// node is a node like any other for the property — it has executed, and nothing below it may
+// execute again until something changes.
 func (d Un) Process() (string, error) {
 	execs[d.ID]++
-	return fmt.Sprintf("u%d(%s)", d.ID, nodes.TryGetOutputValue(d.In, "-")), nil
+	in := nodes.TryGetOutputValue(d.In, "-")
+	if strings.Contains(in, "boom") {
+		return "", fmt.Errorf("u%d: cannot process %q", d.ID, in)
+	}
+	return fmt.Sprintf("u%d(%s)", d.ID, in), nil
+}
+
+// Len consumes a file parameter (parameter.File keeps a version counter of its own).
+type Len struct {
+	ID int
+	In nodes.NodeOutput[[]byte]
+}
+
+func (d Len) Process() (string, error) {
+	execs[d.ID]++
+	return fmt.Sprintf("l%d(%s)", d.ID, nodes.TryGetOutputValue(d.In, nil)), nil
 }
 
 type Bin struct {
@@ -90,18 +108,21 @@ const (
 	Q
 	R
 	Q2 // a twin of q: a distinct nodes.Value with the same initial value (and version)
+	FP // a parameter.File
 	A
 	B
 	C
 	D
 	E
 	F
+	G // G = Len(file)
+	H // H = Un(G): below the file consumer
 	N
 )
 
-var nodeNames = [N]string{"p", "q", "r", "q2", "A", "B", "C", "D", "E", "F"}
+var nodeNames = [N]string{"p", "q", "r", "q2", "file", "A", "B", "C", "D", "E", "F", "G", "H"}
 
-func isParam(n int) bool { return n == P || n == Q || n == R || n == Q2 }
+func isParam(n int) bool { return n == P || n == Q || n == R || n == Q2 || n == FP }
 
 type src struct {
 	port string
@@ -118,8 +139,11 @@ type world struct {
 	b    *nodes.Struct[string, Bin]
 	d    *nodes.Struct[string, Arr]
 	e    *nodes.Struct[string, Sum]
+	fp   *parameter.File
+	g    *nodes.Struct[string, Len]
+	h    *nodes.Struct[string, Un]
 	// reference model
-	pver    [4]int
+	pver    [5]int
 	wiring  [N][]src // ordered inputs of struct nodes (array entries in order)
 	wver    [N]int   // bumped on every re-wiring of the node
 	lastSig [N]string
@@ -145,6 +169,10 @@ func (w *world) out(n int) nodes.NodeOutput[string] {
 		return w.e.Out()
 	case F:
 		return w.f.Out()
+	case G:
+		return w.g.Out()
+	case H:
+		return w.h.Out()
 	}
 	panic("no such node")
 }
@@ -163,11 +191,15 @@ func (w *world) node(n int) nodes.Node {
 		return w.e
 	case F:
 		return w.f
+	case G:
+		return w.g
+	case H:
+		return w.h
 	}
 	panic("no such struct node")
 }
 
-var structNodes = []int{A, B, C, D, E, F}
+var structNodes = []int{A, B, C, D, E, F, G, H}
 
 // build constructs the graph. seed selects a (deliberately non-initial) starting state.
 func build(seed string) *world {
@@ -180,6 +212,11 @@ func build(seed string) *world {
 	w.f = &nodes.Struct[string, Un]{Data: Un{ID: F}}
 	w.wiring[E] = []src{{"In", R}}
 	w.wiring[F] = nil
+	w.fp = &parameter.File{Name: "file", DefaultValue: []byte("f0")}
+	w.g = &nodes.Struct[string, Len]{Data: Len{ID: G, In: w.fp.Out()}}
+	w.h = &nodes.Struct[string, Un]{Data: Un{ID: H, In: w.g.Out()}}
+	w.wiring[G] = []src{{"In", FP}}
+	w.wiring[H] = []src{{"In", G}}
 	w.a = &nodes.Struct[string, Un]{Data: Un{ID: A, In: w.p.Out()}}
 	w.b = &nodes.Struct[string, Bin]{Data: Bin{ID: B, X: w.a.Out(), Y: w.q.Out()}}
 	w.c = &nodes.Struct[string, Un]{Data: Un{ID: C, In: w.a.Out()}}
@@ -213,8 +250,14 @@ func (w *world) eval(n int) string {
 		return w.q.Value()
 	case Q2:
 		return w.q2.Value()
-	case A, C, F:
-		return fmt.Sprintf("u%d(%s)", n, get("In"))
+	case A, C, F, H:
+		in := get("In")
+		if strings.Contains(in, "boom") {
+			return ""
+		}
+		return fmt.Sprintf("u%d(%s)", n, in)
+	case G:
+		return fmt.Sprintf("l%d(%s)", n, w.fp.Value())
 	case E:
 		t := 0
 		for _, s := range w.wiring[E] {
@@ -287,7 +330,7 @@ func (o Op) String() string {
 
 func alphabet() []Op {
 	var o []Op
-	for _, n := range []int{A, B, C, D, E, F} {
+	for _, n := range []int{A, B, C, D, E, F, H} {
 		o = append(o, Op{Kind: "read", A: n})
 	}
 	for _, p := range []int{P, Q} {
@@ -307,6 +350,8 @@ func alphabet() []Op {
 		Op{Kind: "wire", A: D, S: "Other", B: E}, Op{Kind: "wire", A: C, S: "In", B: F}, Op{Kind: "wire", A: F, S: "In", B: P},
 		// re-wiring to a distinct producer that is (still) indistinguishable by value and version
 		Op{Kind: "wire", A: B, S: "Y", B: Q2}, Op{Kind: "wire", A: D, S: "Extra", B: Q2}, Op{Kind: "set", A: Q2, S: "1"},
+		// a file parameter (own version counter) and a value that makes the processors below p fail
+		Op{Kind: "set", A: FP, S: "1"}, Op{Kind: "set", A: FP, S: "22"}, Op{Kind: "set", A: P, S: "boom"},
 	)
 	return o
 }
@@ -356,6 +401,10 @@ func apply(w *world, o Op, step int) (enabled bool, probs []problem) {
 			w.q.Set("q" + o.S)
 		case Q2:
 			w.q2.Set("q" + o.S)
+		case FP:
+			if _, err := w.fp.ApplyMessage([]byte("f" + o.S)); err != nil {
+				panic(err)
+			}
 		case R:
 			if _, err := w.r.ApplyMessage([]byte(o.S)); err != nil {
 				panic(err)
